@@ -69,10 +69,14 @@ enum Sut {
 
 /// Define `(define-syntax <kw> ...)` and evaluate `(<kw> . args)`.
 fn run_sut<F: Fn(&str) -> Sx>(fresh: bool, def_of: F, args: Option<&Sx>) -> Sut {
-    let (mut vm, n) = VM
-        .with(|v| v.borrow_mut().take())
-        .filter(|(_, n)| !fresh && *n < 200)
-        .unwrap_or_else(|| (Vm::new(), 0));
+    let (mut vm, n) = match VM.with(|v| v.borrow_mut().take()).filter(|(_, n)| !fresh && *n < 200) {
+        Some(x) => x,
+        // Vm::new expands the prelude's own macros: a broken expander panics here
+        None => match guard(Vm::new) {
+            Ok(vm) => (vm, 0),
+            Err(p) => return Sut::DefPanic(format!("Vm::new panicked (prelude): {}", p)),
+        },
+    };
     let kw = format!("kw{}", n);
     let def = sx_to_cell(&def_of(&kw));
     match guard(|| vm.eval(&def)) {
@@ -185,7 +189,7 @@ fn virtual_size_bytes() -> u64 {
         .unwrap_or(512 << 20)
 }
 
-const CHILD_HEADROOM_BYTES: u64 = 768 << 20;
+const CHILD_HEADROOM_BYTES: u64 = 256 << 20;
 const CHILD_ALARM_S: u32 = 10;
 
 fn run_sut_forked<F: Fn(&str) -> Sx>(fresh: bool, def_of: F, args: Option<&Sx>) -> Sut {
@@ -197,9 +201,12 @@ fn run_sut_forked<F: Fn(&str) -> Sx>(fresh: bool, def_of: F, args: Option<&Sx>) 
             None => true,
         };
         if stale {
-            *v = Some((Vm::new(), 0));
+            *v = guard(Vm::new).ok().map(|vm| (vm, 0));
         }
     });
+    if VM.with(|v| v.borrow().is_none()) {
+        return run_sut(fresh, def_of, args); // reports the panic of Vm::new
+    }
     let limit = (virtual_size_bytes() + CHILD_HEADROOM_BYTES).min(AS_LIMIT_BYTES);
     let mut fds = [0i32; 2];
     unsafe {
@@ -506,6 +513,9 @@ fn check_valid(ctx: &Ctx, kind: &str, journal_payload: Value, spec: &Spec, args:
             ),
             render(&def_canon, args, &ref_text, "<did not terminate>"),
         ),
+        Sut::DefPanic(p) if p.starts_with("Vm::new panicked") => {
+            Outcome::fail("C17|prelude|panic-in-Vm-new", p, render(&def_canon, args, &ref_text, "<panic in Vm::new>"))
+        }
         Sut::DefPanic(p) => Outcome::fail(
             format!("C17|{}|panic-at-definition", panic_feature()),
             format!("define-syntax panicked: {} :: {}", p, def_canon),
@@ -645,6 +655,7 @@ fn check_arbitrary(ctx: &Ctx, kind: &str, journal_payload: Value, def_of: &dyn F
             ),
             r("<did not terminate>"),
         ),
+        Sut::DefPanic(p) if p.starts_with("Vm::new panicked") => Outcome::fail("C17|prelude|panic-in-Vm-new", p, r("<panic in Vm::new>")),
         Sut::DefPanic(p) => Outcome::fail(
             format!("C17|arbitrary-definition|panic-at-definition|{}", ops),
             format!("define-syntax panicked: {} :: {}", p, def_canon),
@@ -807,7 +818,8 @@ impl Prop for C17 {
             "definitions and uses are handed to Vm::eval as data (Cell), not through the reader (C10/C11 check the reader)",
             "data are exact integers, booleans, strings, characters, symbols, lists, improper lists and vectors; no inexact numbers (pattern data are compared with the SUT's number equality)",
             "uses whose ellipsis variables matched different numbers of items under one template ellipsis are excluded (statement); (kw . atom) against (_ P ... . T) is excluded (R7RS not explicit)",
-            "uses of transformers with a shape on which expansion is known not to terminate (KNOWN_FINDINGS C17|nonterm|*) are not run in the search tier; their reproducers run in the regression tier under a 2 GiB address-space limit",
+            "a case whose templates contain an ellipsis runs in a forked copy of the worker under an address-space limit (current size + 256 MiB) and a 10 s alarm: a runaway expansion is seen as an abort of the child; the driver's watchdog (20 s, 2 GiB limit on the worker) is the backstop",
+            "uses of transformers with a shape on which expansion is known not to terminate (KNOWN_FINDINGS C17|nonterm|*) are not run in the search tier (counted in uses_not_run_known_nontermination; the definition alone is still checked); their reproducers run in the regression tier",
             "one Vm serves up to 200 cases with a fresh keyword each; a fresh Vm after any panic",
         ]
     }
